@@ -302,9 +302,23 @@ func (cf *childFlow) analyse(fn *ssa.Function, paths []NodePath) map[string]path
 		}
 		sort.Slice(joins, func(i, j int) bool { return joins[i].pos < joins[j].pos })
 		J := map[*ssa.BasicBlock]bool{}
+		// a value that enters a phi from a block with two successors is included on that edge only
+		// (`ordering := f.A; if len(f.B) > 0 { ordering = f.B }`: f.A is included on the edge that skips the if)
+		JE := map[*ssa.BasicBlock]int{}
 		var jpos token.Pos
 		for _, j := range joins {
 			if j.merged != nil && !cf.flowsToReturn(j.merged) {
+				continue
+			}
+			if ph, isPhi := j.merged.(*ssa.Phi); isPhi && len(j.block.Succs) == 2 {
+				for k, sc := range j.block.Succs {
+					if sc == ph.Block() {
+						JE[j.block] = k
+					}
+				}
+				if !jpos.IsValid() {
+					jpos = j.pos
+				}
 				continue
 			}
 			J[j.block] = true
@@ -312,7 +326,7 @@ func (cf *childFlow) analyse(fn *ssa.Function, paths []NodePath) map[string]path
 				jpos = j.pos
 			}
 		}
-		if len(J) == 0 {
+		if len(J) == 0 && len(JE) == 0 {
 			res[F] = pathVerdict{status: core.Violated, detail: "field is read but its value never reaches the returned slice"}
 			continue
 		}
@@ -352,7 +366,7 @@ func (cf *childFlow) analyse(fn *ssa.Function, paths []NodePath) map[string]path
 			res[F] = pathVerdict{status: core.Violated, pos: al.Pos(), detail: "the address of variable `" + al.Comment + "`, which is written once per iteration of a loop but allocated once for the whole loop, is put into the result: all elements of " + F + " alias the last one and the others are never reached"}
 			continue
 		}
-		if !exitAvoiding(entry, J, absent, nil) {
+		if !exitAvoiding(entry, J, absent, nil, JE) {
 			res[F] = pathVerdict{status: core.Discharged, pos: jpos}
 			continue
 		}
@@ -363,7 +377,7 @@ func (cf *childFlow) analyse(fn *ssa.Function, paths []NodePath) map[string]path
 		sort.Strings(sibs)
 		done := false
 		for _, s := range sibs {
-			if !exitAvoiding(entry, J, absent, sibPresent[s]) {
+			if !exitAvoiding(entry, J, absent, sibPresent[s], JE) {
 				res[F] = pathVerdict{status: core.Discharged, pos: jpos, exclusiveWith: []string{s}}
 				done = true
 				break
@@ -372,7 +386,7 @@ func (cf *childFlow) analyse(fn *ssa.Function, paths []NodePath) map[string]path
 		if done {
 			continue
 		}
-		best := pathVerdict{status: core.Violated, pos: jpos, detail: "a path through Children() returns without including " + F + " although it is set: " + describeAvoiding(cf.p, entry, J, absent)}
+		best := pathVerdict{status: core.Violated, pos: jpos, detail: "a path through Children() returns without including " + F + " although it is set: " + describeAvoiding(cf.p, entry, J, absent, JE)}
 		res[F] = best
 	}
 	return res
@@ -542,11 +556,11 @@ func reachAvoiding(from, to *ssa.BasicBlock, avoid map[*ssa.BasicBlock]bool, _ i
 
 // exitAvoiding: can a Return be reached from `from` without entering a block
 // of avoid and without taking a forbidden edge (block -> successor index)?
-func exitAvoiding(from *ssa.BasicBlock, avoid map[*ssa.BasicBlock]bool, forbid1, forbid2 map[*ssa.BasicBlock]int) bool {
-	return len(avoidingPath(from, avoid, forbid1, forbid2)) > 0
+func exitAvoiding(from *ssa.BasicBlock, avoid map[*ssa.BasicBlock]bool, forbid1, forbid2 map[*ssa.BasicBlock]int, more ...map[*ssa.BasicBlock]int) bool {
+	return len(avoidingPath(from, avoid, forbid1, forbid2, more...)) > 0
 }
 
-func avoidingPath(from *ssa.BasicBlock, avoid map[*ssa.BasicBlock]bool, forbid1, forbid2 map[*ssa.BasicBlock]int) []*ssa.BasicBlock {
+func avoidingPath(from *ssa.BasicBlock, avoid map[*ssa.BasicBlock]bool, forbid1, forbid2 map[*ssa.BasicBlock]int, more ...map[*ssa.BasicBlock]int) []*ssa.BasicBlock {
 	if avoid[from] {
 		return nil
 	}
@@ -572,7 +586,13 @@ func avoidingPath(from *ssa.BasicBlock, avoid map[*ssa.BasicBlock]bool, forbid1,
 			if f, ok := forbid2[b]; ok && f == k {
 				continue
 			}
-			if avoid[s] {
+			skip := false
+			for _, m := range more {
+				if f, ok := m[b]; ok && f == k {
+					skip = true
+				}
+			}
+			if skip || avoid[s] {
 				continue
 			}
 			if _, seen := prev[s]; seen {
@@ -585,8 +605,8 @@ func avoidingPath(from *ssa.BasicBlock, avoid map[*ssa.BasicBlock]bool, forbid1,
 	return nil
 }
 
-func describeAvoiding(p *core.Prog, entry *ssa.BasicBlock, avoid map[*ssa.BasicBlock]bool, forbid map[*ssa.BasicBlock]int) string {
-	path := avoidingPath(entry, avoid, forbid, nil)
+func describeAvoiding(p *core.Prog, entry *ssa.BasicBlock, avoid map[*ssa.BasicBlock]bool, forbid map[*ssa.BasicBlock]int, more ...map[*ssa.BasicBlock]int) string {
+	path := avoidingPath(entry, avoid, forbid, nil, more...)
 	var conds []string
 	for i, b := range path {
 		if i+1 >= len(path) || len(b.Succs) != 2 {
